@@ -66,7 +66,12 @@ class SpecRun:
         if hasattr(self.spec, 'lock_owned'):
             lock_owned = self.spec.lock_owned
         em = emit_c.CEmitter(self.prog, self.spec, lock_owned=self.lock_owned())
+        for line in self.spec.prelude.split('\n'):
+            m = re.match(r'\s*//@\s*internal\s+([\w, ]+)', line)
+            if m:
+                em.lock_internal |= {x.strip() for x in m.group(1).split(',')}
         text = em.emit()
+        self.structural = em.structural
         open(self.cfile, 'w').write(text)
         self.lines = text.split('\n')
         missing = [k for k, v in em.loops_emitted.items() if not v and k[0] in self.enforced_functions()]
@@ -83,7 +88,7 @@ class SpecRun:
     def lock_owned(self):
         out = {}
         for line in self.spec.prelude.split('\n'):
-            m = re.match(r'\s*//@\s*owned\s+(\w+)\s+mutex=(\w+)\s+fields=([\w,]+)', line)
+            m = re.match(r'\s*//@\s*owned\s+(\w+)\s+mutex=([\w.]+)\s+fields=([\w.,]+)', line)
             if m:
                 out[m.group(1)] = {'mutex': m.group(2), 'fields': set(m.group(3).split(','))}
         return out
@@ -110,7 +115,7 @@ class SpecRun:
         timeout = int(opts.get('timeout', '900'))
         if self.tier == 'thorough':
             timeout = int(opts.get('timeout_thorough', str(timeout * 3)))
-        defs = [d for d in opts.get('define', '').split(',') if d]
+        defs = [d for d in opts.get('define', '').split(',') if d] + [d for d in self.spec.options.get('cdefs', '').split(',') if d]
         if opts.get('enforce'):
             defs.append('ENFORCE_' + opts['enforce'])
         cmd1 = ['goto-cc', '--function', name, self.cfile, '-o', gb1] + ['-D' + d for d in defs]
@@ -286,6 +291,7 @@ def run_check(pid, tier, seed):
     work = os.path.join(VERIF, '.work', pid)
     shutil.rmtree(work, ignore_errors=True)
     os.makedirs(work, exist_ok=True)
+    shutil.rmtree(os.path.join(VERIF, 'replays', pid), ignore_errors=True)   # replay files describe the current run only
     specs = sorted(glob.glob(os.path.join(VERIF, 'specs', pid, '*.spec')))
     runs, jobs = [], []
     no_verdict = []
@@ -362,6 +368,19 @@ def finish(pid, tier, seed, t0, runs, results, bres, no_verdict):
                       'solver': r['opts'].get('solver') or 'cadical (or the spec-level @@option solver)', 'seconds': round(r['seconds'], 2),
                       'obligations': sum(1 for o in r['obligations'] if classify(o) != 'canary'),
                       'discharged': sum(1 for o in r['obligations'] if classify(o) != 'canary' and o['status'] == 'SUCCESS')})
+    for sr in runs:
+        st = getattr(sr, 'structural', [])
+        for ob in st:
+            n_oblig += 1
+            if ob['ok']:
+                n_ok += 1
+            else:
+                failing.setdefault('%s:%s' % (ob['function'], ob['tag']), {
+                    'function': ob['function'], 'spec': sr.name, 'harness': '(extraction)', 'description': ob['tag'] + ': ' + ob['detail'],
+                    'raw': '%s [%s]: %s' % (ob['qual'], ob['tag'], ob['detail'])})
+        if st:
+            table.append({'spec': sr.name, 'harness': '(structural lock obligations on the extracted functions)', 'case': '', 'backend': 'extraction (syntactic, no solver)',
+                          'solver': '-', 'seconds': 0.0, 'obligations': len(st), 'discharged': sum(1 for ob in st if ob['ok'])})
     bounded = []
     for b in bres:
         if b.get('bounded'):
